@@ -438,6 +438,26 @@ Definition fn_rtc_dial := mkFn "rtc_dial"
   [("t.dial", "rtc_dial_inner")] [] [] Nop
   ["scope.SetPeer"].
 
+
+(* ---- WebSocket listener: the HTTP server owns an accepted connection (and its
+   scope, through negotiatingConn.Close) until the upgrader hijacks it; from then
+   on ServeHTTP does.  Closing the websocket conn closes the hijacked
+   negotiatingConn, whose Close Dones the scope (connWithScope.Close). ---------- *)
+Definition fn_ws_serve := mkFn "ws_serve"
+  [("l.wsUpgrader.Upgrade", (AcqConn, Nop, Impossible));
+   ("c.Close", (RelConn, RelConn, RelConn));
+   ("conn.Close", (RelConn, RelConn, RelConn))]
+  []
+  [("l.incoming <- conn", HandOver)] [] Nop
+  ["http.NotFound"; "l.extractConnFromContext"; "l.httpHandler.ServeHTTP"; "nc.Unwrap"; "newConn"; "r.Context";
+   "w.WriteHeader"; "ws.IsWebSocketUpgrade"].
+
+(* httpNetListener.Accept: the accepted conn and scope are wrapped and returned to the HTTP server *)
+Definition fn_ws_netaccept := mkFn "ws_netaccept"
+  [("l.GatedMaListener.Accept", (AcqConn, Nop, Impossible));
+   ("scope.Done", (RelScope, RelScope, RelScope))]
+  [] [] [] Nop [].
+
 (* ---- resource state and interpretation --------------------------------- *)
 Record st := mkSt {
   raw : res; cscope : res; strm : res; sscope : res;
